@@ -15,6 +15,8 @@ inductive VClass where
   | templateData  -- value of --extra-template-data (user-supplied, out of scope)
   | rawInput      -- schema text copied without any escaping
   | includeT      -- `{% include %}` of another template
+  | loopHeader    -- `{% for … %}` header: produces no output
+  | commentLine   -- one element of `field.docstring.splitlines()`: raw input without line terminators
   | unknown
   deriving DecidableEq, Repr
 
@@ -29,6 +31,8 @@ def classify (expr : String) : VClass :=
   else if expr = "comment" then .templateData
   else if expr ∈ ["description", "field.docstring"] then .rawInput
   else if expr.startsWith "include:" then .includeT
+  else if expr.startsWith "for:" then .loopHeader
+  else if expr = "line" then .commentLine
   else .unknown
 
 /-- where a value of each class may stand. `rawInput` is allowed nowhere: every such site is
@@ -42,6 +46,8 @@ def allowed : VClass → String → Bool
   | .codeSlot, st => st == "code"
   | .templateData, st => st == "comment" || st == "code"
   | .includeT, st => st == "code"
+  | .loopHeader, _ => true
+  | .commentLine, st => st == "comment"
   | .rawInput, _ => false
   | .unknown, _ => false
 
